@@ -1060,6 +1060,11 @@ class Interp:
             if z3.simplify(v.length).as_long() != n:
                 raise PyRaise('ValueError')
             return [v.at(IntVal(i)) for i in range(n)]
+        if isinstance(v, (IterV, SeqV)):
+            # a contract sequence of symbolic length: ValueError unless it has exactly n items (both cases are explored when feasible)
+            if self.path.branch(v.length == n):
+                return [v.at(IntVal(i)) for i in range(n)]
+            raise PyRaise('ValueError')
         raise Unsupported('unpacking of %r' % (v,))
 
     def unpack_star(self, v, nb, na):
